@@ -5,6 +5,8 @@ mod systems;
 
 #[cfg(feos_verif_shuttle)]
 mod c11;
+#[cfg(not(feos_verif_shuttle))]
+mod c12;
 
 use common::*;
 use std::sync::Arc;
@@ -27,6 +29,7 @@ fn main() {
         workers: std::thread::available_parallelism().map(|n| n.get()).unwrap_or(4),
         digest_out: None,
         max_wall_s: 1e9,
+        only: None,
     };
     let mut replay_file: Option<String> = None;
     let mut i = 2;
@@ -46,6 +49,7 @@ fn main() {
             "--max-wall" => opts.max_wall_s = val(i).parse().unwrap_or_else(|_| usage()),
             "--digest-out" => opts.digest_out = Some(val(i)),
             "--replay" => replay_file = Some(val(i)),
+            "--only" => opts.only = Some(val(i).parse().unwrap_or_else(|_| usage())),
             _ => usage(),
         }
         i += 2;
@@ -84,8 +88,12 @@ fn dispatch(engine: &str, opts: &Options, replay_file: Option<&str>) -> i32 {
 }
 
 #[cfg(not(feos_verif_shuttle))]
-fn dispatch(engine: &str, _opts: &Options, _replay_file: Option<&str>) -> i32 {
+fn dispatch(engine: &str, opts: &Options, replay_file: Option<&str>) -> i32 {
     match engine {
+        "c12-session" => go(c12::C12 { driver: false, no_faults: false }, (6000, 600_000), opts, replay_file),
+        "c12-session-nofault" => go(c12::C12 { driver: false, no_faults: true }, (3000, 300_000), opts, replay_file),
+        "c12-driver" => go(c12::C12 { driver: true, no_faults: false }, (1500, 100_000), opts, replay_file),
+        "c12-driver-nofault" => go(c12::C12 { driver: true, no_faults: true }, (500, 40_000), opts, replay_file),
         _ => {
             eprintln!("harness error: engine {engine} is not part of the sim build");
             2
